@@ -26,15 +26,20 @@ from harness.common import exc_name, jdump
 
 PID = "C12"
 TITLE = "Histogram and graph arithmetic, scaling and conversions keep every cell"
-LEAN_MODULES = ["LenaModel.Props.C12", "LenaModel.Props.C12Ext", "LenaModel.Props.C12Alias"]
+LEAN_MODULES = ["LenaModel.Props.C12", "LenaModel.Props.C12Ext", "LenaModel.Props.C12Alias", "LenaModel.Props.C12Call"]
 LEAN_SOURCES = ["LenaModel/Model/NArr.lean", "LenaModel/Model/C12.lean", "LenaModel/Model/C12Ext.lean",
                 "LenaModel/Model/C12Spec.lean", "LenaModel/Lemmas/C12Spec.lean", "LenaModel/Props/C12Ext.lean",
                 "LenaModel/Model/C12Alias.lean", "LenaModel/Props/C12Alias.lean",
                 "LenaModel/Lemmas/C12.lean",
                 "LenaModel/Lemmas/C12Hist.lean", "LenaModel/Lemmas/C12Graph.lean", "LenaModel/Lemmas/C12Csv.lean",
-                "LenaModel/Props/C12.lean"]
+                "LenaModel/Props/C12.lean", "LenaModel/Model/C12Call.lean", "LenaModel/Props/C12Call.lean"]
 DRIVER = "drivers/C12.lean"
 THEOREMS = [
+    "Lena.C12.graphLoopSt_once_in_order",
+    "Lena.C12.hist_to_graph_calls",
+    "Lena.C12.graphLoopSt_pure",
+    "Lena.C12.graphLoopSt_pure_state",
+    "Lena.C12.histToGraphSt_pure",
     "Lena.C12.hist_scale",
     "Lena.C12.hist_scale_recomputed_partial",
     "Lena.C12.hist_scale_zero",
@@ -142,6 +147,11 @@ TRUSTED = [
     "JSON line protocol encoders (harness/props/c12.py, drivers/C12.lean); numbers as exact rationals 'n/d'",
 ]
 ASSUMPTIONS = [
+    "the value of a cell in 'one point per cell ... with that cell's value' is what the user's make_value returns for "
+    "that cell when it is called once per cell in cell order: the number and the order of the calls of the user's "
+    "callable are observable behaviour (a make_value that keeps state - a running sum, a counter, a consumed iterator - "
+    "gives other points after an additional call; seed C12-L). In flows through ONE HistToGraph element and in gchain "
+    "the make_value is pure (the state would go on from one histogram to the next).",
     "exact rational arithmetic stands for Python int/float arithmetic: rounding is outside the model. The correspondence "
     "uses cases on which every float operation is exact (small dyadic numbers; targets chosen as dyadic ratio x current "
     "value), so the int/float TYPE of a result is not observed; cases with arbitrary floats (hscale/nevents targets, add "
@@ -212,7 +222,10 @@ RULE = ("cases per op over histograms of every shape 1..4 (1-dim), 1..3 x 1..3 (
         "every shape x axis x both operand orders), iter (iter_bins, "
         "iter_bins_with_edges, iter_cells with None, full, partial, empty and invalid index ranges; bins deeper or "
         "smaller than the edges), h2g (hist_to_graph: left/right/middle/invalid get_coordinate x make_value with 1..3 "
-        "values x tuple/string/invalid field names of matching and non-matching count x scale None/True/number), graph "
+        "values - every make_value a callable object that records its calls; pure ones and three that keep state: a "
+        "running sum (cumulative graph), a call counter, a callable consuming an iterator; the oracle and the model "
+        "(Model/C12Call.lean) state that make_value is called exactly once per cell, in cell order, and that point i "
+        "carries the i-th result - x tuple/string/invalid field names of matching and non-matching count x scale None/True/number), graph "
         "(every naming with 1..3 coordinates and 0..3 error fields drawn from error_<c>, error_<c>_low, error_<c>_high "
         "over all coordinates c, enumerated exhaustively; invalid namings: error before coordinate, unknown coordinate, "
         "ambiguous, duplicates, wrong count, string forms; scale(other) for unknown/zero/non-zero scale), csv (ToCSV.run "
@@ -791,14 +804,18 @@ def iter_case(rng, shape):
     return {"op": "iter", "h": hc, "ranges": ranges, "form": rng.choice(FORMS)}
 
 
-MV_WIDTH = {None: 1, "double": 1, "pair": 2, "triple": 3, "pairlist": 2}
+MV_WIDTH = {None: 1, "double": 1, "pair": 2, "triple": 3, "pairlist": 2, "runsum": 1, "count": 2, "feed": 2}
+# make_value callables that keep state between their calls (the number and the order of the calls of the user's
+# callable are observable behaviour of the conversion): a running sum (the cumulative graph of a histogram), a counter
+# numbering the cells, a callable consuming an iterator; the pure make_value of the same width
+MV_STATEFUL = {"runsum": "double", "count": "pair", "feed": "pair"}
 COORD_NAMES = ["x", "y", "z"]
 
 
 def h2g_case(rng, shape):
     hc = gen_hist(rng, shape)
     dim = len(shape)
-    mv = rng.choice([None, None, "double", "pair", "triple", "pairlist"])
+    mv = rng.choice([None, None, "double", "pair", "triple", "pairlist", "runsum", "count", "feed"])
     width = dim + MV_WIDTH[mv]
     mode = rng.choice(["left", "right", "middle", "left", "right", "middle", "center"])
     base = COORD_NAMES[:dim] + ["v", "error_v", "error_v_low"][:MV_WIDTH[mv]]
@@ -999,6 +1016,7 @@ def csv_flow_case(rng):
 def h2g_flow_case(rng):
     """several values through ONE HistToGraph element"""
     first = h2g_el_case(rng, rng.choice(SHAPES[:13]))
+    first["mv"] = MV_STATEFUL.get(first["mv"], first["mv"])     # one element, several values: the state would go on
     dim = len(shape_of(first["h"]))
     if first["mv"] == "notvar" or first["mode"] not in ("left", "right", "middle"):
         first["mv"], first["mode"] = None, "left"
@@ -1185,6 +1203,7 @@ def gchain_case(rng):
     graph, rows() in random order; targets are power-of-two multiples of the current scale (exact float arithmetic)"""
     if rng.random() < 0.35:
         hg = h2g_case(rng, rng.choice(SHAPES[:13]))
+        hg["mv"] = MV_STATEFUL.get(hg["mv"], hg["mv"])
         if hg["mode"] not in ("left", "right", "middle"):
             hg["mode"] = "middle"
         hg["scale"] = rng.choice([True, True, "4", "1/2", None, "0", "1", "1"])
@@ -1556,9 +1575,46 @@ def _h2g_opts(case_like, mv):
             ("scale", scale, None)]
 
 
+class _RecMV(object):
+    """the user's make_value: a callable object that records the arguments of its calls; "runsum", "count" and "feed"
+    keep state between the calls (a running sum, a call counter, an iterator that is consumed)"""
+
+    def __init__(self, name):
+        self.name = name
+        self.calls = []
+        self.total = 0
+        self.labels = iter(range(10, 10 ** 9, 10))
+
+    def __call__(self, v):
+        self.calls.append(v)
+        name = self.name
+        if name == "runsum":
+            self.total = self.total + v
+            return self.total
+        if name == "count":
+            return (v, len(self.calls))
+        if name == "feed":
+            return (v, next(self.labels))
+        return {"double": (lambda: 2 * v), "pair": (lambda: (v, v / 2)), "triple": (lambda: (v, v / 2, v / 4)),
+                "pairlist": (lambda: [v, v / 2])}[name]()
+
+
 def _mv(name):
-    return {None: None, "double": (lambda v: 2 * v), "pair": (lambda v: (v, v / 2)),
-            "triple": (lambda v: (v, v / 2, v / 4)), "pairlist": (lambda v: [v, v / 2])}[name]
+    return None if name is None else _RecMV(name)
+
+
+def _mv_calls(mv):
+    return None if mv is None else [enc(x) for x in mv.calls]
+
+
+def _ref_mv_results(mv, vals):
+    """what the calls make_value(v0), make_value(v1), ... return, in this order (reference computation)"""
+    out, total = [], 0
+    for k, v in enumerate(vals):
+        total = total + v
+        out.append({None: [v], "double": [2 * v], "pair": [v, v / 2], "triple": [v, v / 2, v / 4],
+                    "pairlist": [v, v / 2], "runsum": [total], "count": [v, F(k + 1)], "feed": [v, F(10 * (k + 1))]}[mv])
+    return out
 
 
 def _group_objs(items, with_ctx):
@@ -1716,13 +1772,14 @@ def run_impl(case):
     if op == "h2g":
         h = build_hist(case["h"])
         try:
+            rec = _mv(case["mv"])
             if case.get("defaults"):
                 g = hf.hist_to_graph(h)
             else:
-                g = _call(hf.hist_to_graph, case.get("form"), [h], _h2g_opts(case, _mv(case["mv"])))
+                g = _call(hf.hist_to_graph, case.get("form"), [h], _h2g_opts(case, rec))
         except Exception as ex:
             return _exc(ex)
-        return {"g": graph_state(g), "rows": [[enc(x) for x in row] for row in g], "hscale":
+        return {"g": graph_state(g), "rows": [[enc(x) for x in row] for row in g], "mv_calls": _mv_calls(rec), "hscale":
                 None if h._scale is None else enc(h._scale), "is_graph": isinstance(g, lena.structures.graph),
                 "bins_same": enc_nested(h.bins) == map_nested(norm, case["h"]["bins"])}
 
@@ -1982,7 +2039,8 @@ def run_impl(case):
         elif mvn == "notvar":
             mv = (lambda v: v)
         else:
-            mv = lena.variables.Variable("val", _mv(mvn))
+            rec = _mv(mvn)
+            mv = lena.variables.Variable("val", rec)
         try:
             if case.get("defaults") and mvn is None:
                 el = lena.structures.HistToGraph()
@@ -2005,6 +2063,7 @@ def run_impl(case):
         if not isinstance(g, lena.structures.graph):
             return {"not_graph": type(g).__name__}
         return {"g": graph_state(g), "rows": [[enc(x) for x in row] for row in g],
+                "mv_calls": None if mvn is None else _mv_calls(rec),
                 "hscale": None if h._scale is None else enc(h._scale),
                 "bins_same": enc_nested(h.bins) == map_nested(norm, case["h"]["bins"])}
 
@@ -2140,7 +2199,7 @@ def _spec_requests(case):
             return [{"op": "spec_map", "bins": case["h"]["bins"], "c": enc(q(case["other"]) / i)}]
     if op == "add" and case["rel"] in ("same", "near", "mid") and case.get("exact", True):
         return [{"op": "spec_zip", "a": case["a"]["bins"], "b": case["b"]["bins"], "w": case["w"]}]
-    if op == "h2g" and case["mode"] in ("left", "right", "middle"):
+    if op == "h2g" and case["mode"] in ("left", "right", "middle") and case["mv"] not in MV_STATEFUL:
         return [{"op": "spec_points", "h": model_hist(case["h"]), "mode": case["mode"], "mv": case["mv"]}]
     if op == "csv" and len(shape_of(case["h"])) <= 2:
         axes = axes_of(case["h"])
@@ -2275,6 +2334,13 @@ def _main_requests(case):
         f = case["vals"][0]
         return [{"op": "h2g_el", "mv": f["mv"], "mode": f["mode"], "fields": f["fields"], "scale": f["scale"],
                  "is_hist": v["is_hist"], "h": model_hist(v["h"]), "to_graph": v["to_graph"]} for v in case["vals"]]
+    if op == "h2g_el" and case["mv"] in MV_STATEFUL:
+        # the stateful make_value is modelled for the conversion itself (Model/C12Call.lean histToGraphSt); construction
+        # errors and values passed unchanged do not depend on make_value and are compared for the other make_values
+        if case["mode"] not in ("left", "right", "middle") or not case["is_hist"] or not case["to_graph"]:
+            return []
+        return [{"op": "hist_to_graph_st", "h": model_hist(case["h"]), "mv": case["mv"], "mode": case["mode"],
+                 "fields": case["fields"], "scale": case["scale"]}]
     if op == "h2g_el":
         return [{"op": "h2g_el", "mv": case["mv"], "mode": case["mode"], "fields": case["fields"], "scale": case["scale"],
                  "is_hist": case["is_hist"], "h": model_hist(case["h"]), "to_graph": case["to_graph"]}]
@@ -2298,8 +2364,8 @@ def _main_requests(case):
     if op == "iter":
         return [{"op": "iter", "h": model_hist(case["h"]), "ranges": case["ranges"]}]
     if op == "h2g":
-        return [{"op": "hist_to_graph", "h": model_hist(case["h"]), "mv": case["mv"], "mode": case["mode"],
-                 "fields": case["fields"], "scale": case["scale"]}]
+        return [{"op": "hist_to_graph_st" if case["mv"] in MV_STATEFUL else "hist_to_graph", "h": model_hist(case["h"]),
+                 "mv": case["mv"], "mode": case["mode"], "fields": case["fields"], "scale": case["scale"]}]
     if op == "graph":
         return [{"op": "graph", "g": model_graph(case["g"]), "other": case["other"] if case["exact"] else None}]
     if op == "graph_add":
@@ -2577,6 +2643,12 @@ def _compare_main(case, res, replies):
         if res.get("unchanged") or m.get("unchanged"):
             return diff("value yielded unchanged", bool(res.get("unchanged")), bool(m.get("unchanged")))
         return diff("CSV text", res.get("text"), m.get("text"))
+    if op == "h2g_el" and case["mv"] in MV_STATEFUL:
+        if "e" in res or "e" in m:
+            return diff("exception", [res.get("e"), res.get("phase")], [m.get("e"), "run" if "e" in m else None])
+        if "g" not in res:
+            return f"h2g_el: impl {res}"
+        return _compare_main(dict(case, op="h2g"), res, replies)
     if op == "h2g_el":
         if "e" in res or "e" in m:
             return diff("exception", [res.get("e"), res.get("phase")], [m.get("e"), m.get("phase")])
@@ -2644,6 +2716,15 @@ def _compare_main(case, res, replies):
     if op == "h2g":
         if "e" in res or "e" in m:
             return diff("exception", res.get("e"), m.get("e"))
+        if "calls" in m:
+            # Model/C12Call.lean: the arguments of the calls of make_value in call order, their number, and the results
+            # of the calls as the model's callResults computes them from these arguments
+            vals = [q(x) for x in m["calls"]]
+            d = (diff("calls of make_value", [_nq(x) for x in res["mv_calls"]], [_nq(x) for x in m["calls"]]) or
+                 diff("number of calls (callState)", len(res["mv_calls"]), m["ncalls"]) or
+                 diff("callResults", _norm_rows(m["results"]), [[enc(x) for x in r] for r in _ref_mv_results(case["mv"], vals)]))
+            if d:
+                return d
         return (diff("graph", norm_graph(res["g"]), norm_graph(m["g"])) or
                 diff("rows", _norm_rows(res["rows"]), _norm_rows(m["rows"])) or
                 diff("hist._scale", None if res["hscale"] is None else _nq(res["hscale"]),
@@ -3057,10 +3138,17 @@ def oracle(case, res):
                 c = [hi for lo, hi in ed]
             else:
                 c = [(lo + hi) / 2 for lo, hi in ed]
-            vals = {None: [v], "double": [2 * v], "pair": [v, v / 2], "triple": [v, v / 2, v / 4], "pairlist": [v, v / 2]}[mv]
-            want.append([enc(x) for x in c + vals])
+            want.append(c)
+        # "with that cell's value": the value of cell i is what the i-th call of the user's make_value returns, and
+        # make_value is called exactly once per cell, in cell order
+        contents = [v for _, v, _ in ref_cells(hc)]
+        want = [[enc(x) for x in c + r] for c, r in zip(want, _ref_mv_results(mv, contents))]
+        calls = res.get("mv_calls")
+        if mv is not None and calls is not None and [_nq(x) for x in calls] != [enc(v) for v in contents]:
+            return (f"make_value was called with {calls}: it must be called exactly once per cell, in cell order, "
+                    f"with {[enc(v) for v in contents]}")
         if _norm_rows(res["rows"]) != want:
-            return f"hist_to_graph({mode}) points {res['rows']}, one point per cell would be {want}"
+            return f"hist_to_graph({mode}, make_value={mv}) points {res['rows']}, one point per cell would be {want}"
         g = res["g"]
         if [list(col) for col in zip(*want)] != [[_nq(x) for x in col] for col in g["coords"]] and want:
             return f"graph coords {g['coords']} are not the columns of the points"
